@@ -149,6 +149,8 @@ STRUCT = [
     {'Do S-DAC-GT Calculations': 'True'},
     {'Do S-DAC-GT Calculations': 'True', 'S-DAC-GT CAPEX': '2000', 'S-DAC-GT OPEX': '200', 'S-DAC-GT Electrical Energy': '1000', 'S-DAC-GT Thermal Energy': '2000'},
     {'Production Tax Credit Electricity': '0.04', 'Production Tax Credit Heat': '0.5', 'Production Tax Credit Cooling': '0.5', 'Production Tax Credit Duration': '2'},
+    # both extensions in one run (each has its own economics, outputs and report block)
+    {**{k: v for k, v in ADDON_GAIN.items()}, 'Do S-DAC-GT Calculations': 'True', 'S-DAC-GT CAPEX': '1400', 'S-DAC-GT OPEX': '130'},
 ]
 
 
